@@ -887,3 +887,67 @@ def option_guards(body, same):
                     positive = not positive
                 out.append((sb, bool_edge(body, sb, positive), bool_edge(body, sb, not positive)))
     return out
+
+
+NEG_CMP = {"Eq": "Ne", "Ne": "Eq", "Lt": "Ge", "Le": "Gt", "Gt": "Le", "Ge": "Lt"}
+
+
+def implied_comparisons(body, target, _seen=None):
+    """Comparisons known to hold whenever block `target` is reached: [(op, lhs_expr, rhs_expr)] with traced,
+    ref-stripped operands.  A boolean test contributes when one of its edges lies on every path to `target`;
+    a test on a boolean *variable* (`let ok = a >= b && a < c; if ok {…}`) is resolved through the variable's
+    definitions: the definitions that cannot have produced the tested truth value are dropped, and if exactly one
+    remains, its comparison holds together with whatever holds at its defining block."""
+    _seen = _seen or set()
+    if target in _seen:
+        return []
+    _seen = _seen | {target}
+    out = []
+    for sb in sorted(body.reachable()):
+        tt = body.blocks[sb]["term"]
+        if tt["k"] != "SwitchInt" or tt.get("dty") != "bool":
+            continue
+        for truth in (True, False):
+            tg = bool_edge(body, sb, truth)
+            if tg == bool_edge(body, sb, not truth):
+                continue
+            if edge_dominates(body, sb, tg, target):
+                out.extend(_facts_of_bool(body, tt["discr"], truth, _seen))
+    return out
+
+
+def _facts_of_bool(body, op, truth, seen, depth=0):
+    if depth > 6 or op["k"] not in ("Copy", "Move") or op["place"]["proj"]:
+        return []
+    l = op["place"]["local"]
+    ds = body.defs().get(l, [])
+    facts = []
+    cands = []
+    for d in ds:
+        if d[0] != "stmt":
+            return []
+        rv = d[3]
+        if rv["k"] == "Use" and rv["op"]["k"] == "Const" and rv["op"]["const"].get("ty") == "bool":
+            if rv["op"]["const"]["bool"] == truth:
+                return []          # a constant definition can explain the tested value: nothing follows
+            continue               # cannot have produced it
+        cands.append(d)
+    if len(cands) != 1:
+        return []
+    d = cands[0]
+    rv = d[3]
+    if rv["k"] == "BinaryOp" and rv["op"] in NEG_CMP:
+        opn = rv["op"] if truth else NEG_CMP[rv["op"]]
+        facts.append((opn, strip_refs(body.trace(rv["a"])), strip_refs(body.trace(rv["b"]))))
+    elif rv["k"] == "UnaryOp" and rv.get("op") == "Not":
+        inner = rv.get("a") or rv.get("operand")
+        if inner:
+            facts.extend(_facts_of_bool(body, inner, not truth, seen, depth + 1))
+    elif rv["k"] == "Use" and rv["op"]["k"] in ("Copy", "Move"):
+        facts.extend(_facts_of_bool(body, rv["op"], truth, seen, depth + 1))
+    else:
+        return []
+    if len(ds) > 1:
+        # the surviving definition sits in a block of its own: what holds there holds here too
+        facts.extend(implied_comparisons(body, d[1], seen))
+    return facts
